@@ -1,5 +1,5 @@
 //@unit sm9_math
-//@serves C09 C10 C13 C14 C16 C17
+//@serves C09 C10 C13 C14 C16 C17 C20
 //@assume SM9 parameters p, N, b = 5, P1 in the spec are a transcription of GM/T 0044.5 (compared with the code constants by ground lemmas in the units that use them)
 //@assume p and N are prime; G1, G2 are groups of order N under g1_add / g2_add; GT is a group of order N; the pairing symbol e9 is bilinear and non-degenerate (axioms ax9_*) - bilinearity of the implemented pairing itself is property C12 and is NOT claimed
 //@include-spec sm2_math
